@@ -66,7 +66,7 @@ fn render_layout(toks: &[Tok], enders: &[String], rng: &mut Rng) -> String {
             // a statement terminator: newline or ';' (a newline here is a terminator only because the previous token is an ender)
             let prev_is_ender = i > 0 && enders.contains(&toks[i - 1].kind);
             if prev_is_ender && t.lexeme == "\n" || (prev_is_ender && rng.chance(1, 2)) {
-                s.push_str(["\n", "\n", " \n", "\r\n", " // c\n", "\n\n  \n", "\n// é\n"][rng.below(7)]);
+                s.push_str(["\n", "\n", " \n", "\r\n", " // c\n", "\n\n  \n", "\n// é\n", " // path C:\\tmp\\\n", " //\n", "\n// \"quoted\" // nested \\\n"][rng.below(10)]);
             } else {
                 s.push_str([";", " ;", "; ", ";\n", " ; // c\n"][rng.below(5)]);
             }
@@ -95,7 +95,7 @@ fn render_layout(toks: &[Tok], enders: &[String], rng: &mut Rng) -> String {
                 4 => " \r",
                 5 => " \\\n ",
                 6 if may_break => "\n",
-                7 if may_break => " // cömment\n  ",
+                7 if may_break => [" // cömment\n  ", " // ends with a backslash \\\n", " // \\\\\n\t", " //\n"][rng.below(4)],
                 8 if may_break => "\r\n\t",
                 9 if may_break => "\n\n",
                 _ => " ",
@@ -406,6 +406,57 @@ fn bracket_balance(src: &str) -> bool {
     stack.is_empty() && !in_str
 }
 
+/// the documented keywords (upper-case spelling)
+pub const KEYWORDS_DOC: &[&str] = &["AND", "BREAK", "CONTINUE", "EACH", "ELSE", "EXPORT", "FALSE", "FOR", "FROM", "IF", "IMPORT", "IN", "MOD", "NOT", "NULL", "OR", "PROCEDURE", "REPEAT", "RETURN", "TIMES", "TRUE", "UNTIL"];
+
+/// lower-case the keywords of a program text (all of them, or each with probability 1/2), leaving string
+/// literals, comments and identifiers alone
+pub fn recase_keywords(src: &str, rng: &mut Rng, all: bool) -> String {
+    let chars: Vec<char> = src.chars().collect();
+    let mut out = String::with_capacity(src.len());
+    let mut i = 0;
+    while i < chars.len() {
+        let c = chars[i];
+        if c == '"' {
+            out.push(c);
+            i += 1;
+            while i < chars.len() {
+                out.push(chars[i]);
+                if chars[i] == '\\' && i + 1 < chars.len() {
+                    out.push(chars[i + 1]);
+                    i += 2;
+                    continue;
+                }
+                if chars[i] == '"' {
+                    i += 1;
+                    break;
+                }
+                i += 1;
+            }
+        } else if c == '/' && i + 1 < chars.len() && chars[i + 1] == '/' {
+            while i < chars.len() && chars[i] != '\n' {
+                out.push(chars[i]);
+                i += 1;
+            }
+        } else if c.is_alphanumeric() || c == '_' {
+            let st = i;
+            while i < chars.len() && (chars[i].is_alphanumeric() || chars[i] == '_') {
+                i += 1;
+            }
+            let w: String = chars[st..i].iter().collect();
+            if KEYWORDS_DOC.contains(&w.as_str()) && (all || rng.chance(1, 2)) {
+                out.push_str(&w.to_lowercase());
+            } else {
+                out.push_str(&w);
+            }
+        } else {
+            out.push(c);
+            i += 1;
+        }
+    }
+    out
+}
+
 pub fn c09(ctx: &Ctx) -> PropResult {
     let mut rng = mk_rng(ctx.seed, 9);
     let mut cases = vec![];
@@ -416,6 +467,10 @@ pub fn c09(ctx: &Ctx) -> PropResult {
         let p = d.program();
         valid.push(p.clone());
         cases.push(Case::new(Kind::Parse, p).tag("derivation").aux("accept".into()));
+    }
+    // every keyword may be written in lower case: the derivations again with all / some keywords lower-cased
+    for (i, p) in valid.iter().enumerate().take(if ctx.quick() { 1_500 } else { 30_000 }) {
+        cases.push(Case::new(Kind::Parse, recase_keywords(p, &mut rng, i % 2 == 0)).tag("derivation-keyword-case").aux("accept".into()));
     }
     // fixed forms from the property's text
     for p in [
@@ -442,6 +497,7 @@ pub fn c09(ctx: &Ctx) -> PropResult {
         ";",
     ] {
         cases.push(Case::new(Kind::Parse, p.to_string()).tag("documented-form").aux("accept".into()));
+        cases.push(Case::new(Kind::Parse, recase_keywords(p, &mut rng, true)).tag("documented-form-lower-case").aux("accept".into()));
     }
     // rejections
     for p in [
@@ -540,7 +596,7 @@ pub fn c09(ctx: &Ctx) -> PropResult {
 
 pub fn c11(ctx: &Ctx) -> PropResult {
     let mut rng = mk_rng(ctx.seed, 11);
-    let noise = ["", "// héllo 中文 😀\n", "\n\n\n", "note <- \"line1\\nline2 é\"\n", "// a\n// b\nzz <- \"😀😀\"\n\n", "   \t\n// ümlaut\n"];
+    let noise = ["", "// héllo 中文 😀\n", "\n\n\n", "note <- \"line1\\nline2 é\"\n", "// a\n// b\nzz <- \"😀😀\"\n\n", "   \t\n// ümlaut\n", "// crlf é\r\nn1 <- 1\r\n\r\n", "s2 <- \"two\r\nlines 語\"\r\n"];
     let pre = |rng: &mut Rng| -> String { noise[rng.below(noise.len())].to_string() };
     let mut cases = vec![];
     // every runtime-error kind, at several depths of expression / statement context
@@ -607,8 +663,33 @@ pub fn c11(ctx: &Ctx) -> PropResult {
     // lexical and syntactic diagnostics with noise in front
     let bad = ["x <- 1 ! 2", "x = 1", "y <- \"unterminated", "z <- 1 \\ 2", "w <- #", "v <- \"bad \\q escape\"", "u <- é + ", "IF (x { }", "x <- (1", "REPEAT 2 { }", "FOR x IN y { }", "PROCEDURE () { }", "x <- ]", "f(1,, 2)", "1 <- 2", "😀 <- 1", "x <- 1 😀"];
     for b in bad {
-        for _ in 0..4 {
-            cases.push(run_case(format!("{}{}\n", pre(&mut rng), b), "front-end-error"));
+        for ni in 0..noise.len() {
+            let src = format!("{}{}\n", noise[ni], b);
+            cases.push(run_case(src.clone(), "front-end-error"));
+            // the labels themselves are compared with the model's
+            cases.push(Case::new(Kind::Parse, src).tag("front-end-error-labels"));
+            let crlf = format!("{}語 <- 5\r\n{}\r\nDISPLAY(1)\r\n", noise[ni].replace('\n', "\r\n").replace("\r\r", "\r"), b);
+            cases.push(run_case(crlf.clone(), "front-end-error"));
+            cases.push(Case::new(Kind::Parse, crlf).tag("front-end-error-labels"));
+        }
+    }
+    // errors inside an exported procedure of a user module: the diagnostic belongs to the module's text
+    let mod_dir = scratch_dir("c11-modules");
+    let _ = std::fs::create_dir_all(mod_dir.join("lib"));
+    for (k, (expr, label)) in failing.iter().enumerate() {
+        for body_ctx in ["RETURN @\n", "x <- 1 + (@)\nRETURN x\n", "IF (TRUE) {\nDISPLAY([0, @])\n}\n"] {
+            let module = format!("// módule 語\nPROCEDURE one(p) {{\n RETURN p\n}}\nEXPORT PROCEDURE bad() {{\nlst <- [1, 2, 3]\nstr <- \"héllo\"\nnum <- 5\n{}}}\n", body_ctx.replace('@', expr));
+            let name = format!("lib/m{}_{}.ap", k, fnv(body_ctx) % 1000);
+            let full = mod_dir.join(&name);
+            std::fs::write(&full, &module).unwrap();
+            for ni in [0usize, 1, 6] {
+                // `one` is called inside the module: it must be visible there (imported whole into the importer as well)
+                let main = format!("{}PROCEDURE one(p) {{\n RETURN p\n}}\nIMPORT MOD \"{}\"\nDISPLAY(\"éarlier output\")\nDISPLAY(bad())\n", noise[ni], name);
+                let mut c = run_case(main, "module-runtime-error").aux(format!("{}\u{1}{}", label, module));
+                c.path = mod_dir.join("main.ap").to_string_lossy().to_string();
+                c.files = vec![(full.to_string_lossy().to_string(), Some(module.clone()))];
+                cases.push(c);
+            }
         }
     }
     // random erroneous programs from the general generator
@@ -631,8 +712,29 @@ pub fn c11(ctx: &Ctx) -> PropResult {
         };
         match &r.end {
             End::Panic(m) => return Err(format!("implementation panicked: {m}")),
+            End::Rt(o, l, _) if case.tags.iter().any(|t| t == "module-runtime-error") => {
+                let (label, module) = case.aux.split_once('\u{1}').unwrap_or(("", ""));
+                let Some(text) = r.rt_source.as_ref() else { return Err("the runtime diagnostic carries no source text".into()) };
+                if text != module {
+                    return Err(format!("an error raised inside the module is reported against another text ({} bytes, starting {:?})", text.len(), text.chars().take(30).collect::<String>()));
+                }
+                if o + l > text.len() || !text.is_char_boundary(*o) || !text.is_char_boundary(o + l) {
+                    return Err(format!("diagnostic label {o}+{l} lies outside the module's text or inside a character"));
+                }
+                let got = &text[*o..*o + *l];
+                if got.trim() != label.trim() {
+                    return Err(format!("the label covers {:?} of the module, the failing construct is {:?}", got, label));
+                }
+                return Ok(true);
+            }
             End::Rt(o, l, _) => {
                 check(*o, *l)?;
+                // the diagnostic is attached to this program's text
+                if let Some(text) = r.rt_source.as_ref() {
+                    if case.files.is_empty() && text != src {
+                        return Err("the runtime diagnostic is attached to a text that is not the program's source".into());
+                    }
+                }
                 if case.tags.iter().any(|t| t == "runtime-error") {
                     let got = &src[*o..*o + *l];
                     if got.trim() != case.aux.trim() {
